@@ -995,7 +995,7 @@ func init() {
 		Rule: "position monitor: (i) decode check on every diagnostic with the harness's own newline index: L:C designates an offset of the source, L-1 newlines precede it, the quoted token is the source text ending exactly there, 'at end' is the end of input; (ii) prediction check: first compile diagnostic at the end of the first non-viable token (independent recognizer), runtime errors and warnings at the end of the last token of the failing operation (reference model + renderer's token spans); " +
 			"(iii) the program's line table equals the newline offsets of the source, one position per code byte, each a token end; (iv) the same diagnostics, positions and line table under chunked ParseFile, the same runtime error after dump and load. " +
 			"Workload: generated programs (runtime errors and warnings at every statement), token-damaged programs (compile errors everywhere), rendered with hostile multi-line layout (blank lines, CR LF, CR-only, comments, multi-byte characters before the error) and padded by 0/250/2300/4100/8200/68000 bytes so that offsets cross the read page and every varint class. " +
-			"distinct = hash of source; non-trivial = at least one position decoded or predicted Also: 34 programs failing exactly at the operand-stack limit with the position expected at the operand whose push finds the stack full; value-less block names (the diagnostic must sit at the name); the dump/load route alternates LoadProg with Prog.Load into a Prog that held another program. Long programs: a 1300-line program failing at line L for every L; 1100/2100/3100 lines each with a syntax error of its own (every diagnostic decoded, one per line); 10..2400 constants in front of an operation failing at an operand fetched through a 1-, 2- or 3-byte index, parsed and after dump and load; a child block as operand of every operator kind, also under 'not (...)' and across lines.",
+			"distinct = hash of source; non-trivial = at least one position decoded or predicted Also: 34 programs failing exactly at the operand-stack limit with the position expected at the operand whose push finds the stack full; value-less block names (the diagnostic must sit at the name); the dump/load route alternates LoadProg with Prog.Load into a Prog that held another program. Long programs: a 1300-line program failing at line L for every L; 1100/2100/3100 lines each with a syntax error of its own (every diagnostic decoded, one per line); 10..2400 constants in front of an operation failing at an operand fetched through a 1-, 2- or 3-byte index, parsed and after dump and load; a child block as operand of every operator kind, also under 'not (...)' and across lines. A third of the accepted programs are compiled once more with io.Discard (or a func adapter) as log and output writer: same positions, same line table, same runtime error.",
 		Assumptions:   []string{"DESIGN §5.4 'Positions' is the location rule"},
 		MinNontrivial: 1000,
 		Run: func(c *core.Ctx) {
